@@ -25,6 +25,11 @@ CHECKS = {
   text="Kernel-checked: C06_layout_invariant — for EVERY two option records that agree on quote and separate_complex_types (any indent, spacer string, newline string, end_comment, align_values) and every dictionary or list of roots, printing fails with the same error or yields the same sequence of (kind, key text, value text), comment lines aside (fmt_sim/fmtItems_sim/fmtList_sim by mutual induction over unbounded nesting); C06_sep_stable/_perm/_idem — separate_complex_types is a stable partition of each object's keys (simple keys then block-valued keys, relative order kept), a permutation, idempotent. Tied to pprint.py by exact-string correspondence; the oracle reloads real dumps output under option sets drawn from the full 864+ product and compares with the default formatting (modulo the documented block reordering, computed independently).",
   note="Trusted: Lean kernel; hand model of pprint.py (correspondence); Gen tables regenerated; that Lark maps equal token content to equal dictionaries is the parser/lexer gap, exercised by the oracle; the quote option is covered by the oracle and correspondence only (no theorem yet); strings containing the output quote are the documented exclusion.",
   ref="§6 C06"),
+ "C03": dict(
+  technique="Lean 4 proofs: hidden keys contribute nothing (for every object, option record); per-shape lexical-class lemmas universal in the value + `decide +kernel` obligation over the regenerated schema tables; + format_value/quoter/pp correspondence and an independent expected-lines oracle incl. dict-API edit histories",
+  text="Kernel-checked: C03_hidden_keys_silent / C03_kv_hidden_silent / sep_dropHidden (dropping every __name__ key other than __type__/__comments__ from any object changes nothing that is printed, under every option record); C03_string_quoted, C03_int_bare, C03_float_bare, C03_bool_bare, C03_binding_bare, C03_expression_bare, C03_listexpr_bare, C03_regex_bare (each universal in the value, under an explicit decidable condition okFor on the keyword's schema abstraction) and C03_table / C03_cell_ok (`decide +kernel`: every (type, keyword, admissible shape) of the regenerated Gen.props × Gen.shapes satisfies okFor; enumerated words evaluated exhaustively for both quotes); C03_empty_dict_refused. Edit histories need no separate theorem: the statements hold for every dictionary. Tied to the code by format_value (every cell × shape × both quotes), quoter (exhaustive short strings) and pp correspondences; the oracle compares real dumps with an independently written expectation, for generated documents and for dictionaries edited through random dict-API histories (incl. reads of missing keys, which must be refused).",
+  note="Trusted: Lean kernel; hand models of pprint.py/quoter.py (correspondence each run); Gen tables regenerated; lexical-class lemmas use the model's quoter predicates as hypotheses; COMPOP and GEOMTRANSFORM \"end\" quoted by design; strings that look like expressions/bindings/regexes at expression-capable keywords are the documented exclusion; list-valued keywords holding bindings are not in the generated shapes.",
+  ref="§6 C03"),
 }
 NOT_APPLICABLE = {}
 ALL = [f"C{i:02d}" for i in range(1, 21)]
